@@ -217,7 +217,7 @@ class G:
                 items = tuple(self.dt(None) for _ in range(r.randrange(1, 4)))       # floating list next to a zoned start
             else:
                 items = tuple(self.dt(tzs) for _ in range(r.randrange(1, 4)))
-            props.append((name, (), ("datelist", items)))
+            props.append((name, self.params(exclude=("TZID", "VALUE")) if r.randrange(4) == 0 else (), ("datelist", items)))
         if r.randrange(5) == 0 and kind in ("VEVENT", "VTODO", "VJOURNAL"):
             props.append(("RECURRENCE-ID", (), start))
         if r.randrange(5) == 0:
@@ -225,7 +225,7 @@ class G:
             props.append(("LAST-MODIFIED", (), self.dt("UTC")))
         if kind == "VFREEBUSY":
             for _ in range(r.randrange(1, 3)):
-                ptz = r.choice(("UTC", "UTC", None))
+                ptz = r.choice(("UTC", "UTC", None, "zone:" + r.choice(ZONES[:3])))          # (UTC is what the RFC wants; a zone is what the library also takes)
                 fb = tuple(self.period(ptz) for _ in range(r.randrange(1, 4)))
                 props.append(("FREEBUSY", (("FBTYPE", r.choice(("BUSY", "FREE"))),) if r.randrange(2) else (), ("freebusy", fb)))
         if r.randrange(6) == 0:
@@ -267,7 +267,7 @@ class G:
     def timezone(self):
         """a custom zone: one fixed-offset STANDARD observance, id unknown to any tz database"""
         r = self.rng
-        tzid = f"Verif/Custom-{r.randrange(10 ** 9)}"
+        tzid = f"Verif/Custom-{r.randrange(10 ** 9)}"        # (ids that need escaping - Exchange's "(UTC+01:00) Amsterdam, Berlin, ..." - are C12's: here they would entangle the placeholder classifier)
         self.custom_ids.append(tzid)
         off = r.choice((-12, -9, -5, -3, 0, 1, 2, 5, 8, 10, 13, 14)) * 3600 + r.choice((0, 0, 0, 1800, 2700))
         if off > 14 * 3600:
@@ -300,6 +300,13 @@ class G:
     def component(self, kind, depth=1):
         r = self.rng
         props = self.common_props(kind)
+        if kind == "VEVENT" and r.randrange(30) == 0:
+            # an "all day" event the way Outlook/Exchange write it: date-times at midnight plus a vendor flag - date-times all the same
+            tz = r.choice((None, "UTC", "zone:Europe/Berlin"))
+            y, mo, d = r.randrange(1971, 2036), r.randrange(1, 13), r.randrange(1, 28)
+            props = [p for p in props if p[0] not in ("DTSTART", "DTEND", "DURATION", "RDATE", "EXDATE", "RECURRENCE-ID", "RRULE", "EXRULE")]
+            props += [("DTSTART", (), ("dt", y, mo, d, 0, 0, 0, tz)), ("DTEND", (), ("dt", y, mo, d + 1, 0, 0, 0, tz)),
+                      ("X-MICROSOFT-CDO-ALLDAYEVENT", (), ("text", "TRUE")), ("X-MICROSOFT-CDO-BUSYSTATUS", (), ("text", "FREE"))]
         r.shuffle(props)
         subs = []
         if kind in ("VEVENT", "VTODO"):
